@@ -7,6 +7,7 @@ import (
 	"fmt"
 	"math/big"
 	"sort"
+	"strconv"
 	"strings"
 	"sync"
 )
@@ -104,6 +105,7 @@ type Table struct {
 	terms []*Term
 	// declared UFs: name -> signature
 	UFs map[string]UFSig
+	smallConst map[[2]uint64]*Term
 }
 
 type UFSig struct {
@@ -112,38 +114,48 @@ type UFSig struct {
 }
 
 func NewTable() *Table {
-	t := &Table{byKey: map[string]*Term{}, UFs: map[string]UFSig{}}
+	t := &Table{byKey: map[string]*Term{}, UFs: map[string]UFSig{}, smallConst: map[[2]uint64]*Term{}}
 	return t
 }
 
 func (tb *Table) NumTerms() int { tb.mu.Lock(); defer tb.mu.Unlock(); return len(tb.terms) }
 
 func (tb *Table) intern(op Op, s Sort, args []*Term, val *big.Int, name string, hi, lo int) *Term {
-	var sb strings.Builder
-	fmt.Fprintf(&sb, "%d|%d.%d|", op, s.K, s.W)
+	var buf [96]byte
+	b := buf[:0]
+	b = append(b, byte(op), byte(s.K))
+	b = strconv.AppendInt(b, int64(s.W), 36)
+	b = append(b, '|')
 	for _, a := range args {
-		fmt.Fprintf(&sb, "%d,", a.ID)
+		b = strconv.AppendInt(b, int64(a.ID), 36)
+		b = append(b, ',')
 	}
 	if val != nil {
-		sb.WriteString("|v")
-		sb.WriteString(val.Text(16))
+		b = append(b, 'v')
+		if val.IsUint64() {
+			b = strconv.AppendUint(b, val.Uint64(), 36)
+		} else {
+			b = val.Append(b, 36)
+		}
 	}
 	if name != "" {
-		sb.WriteString("|n")
-		sb.WriteString(name)
+		b = append(b, 'n')
+		b = append(b, name...)
 	}
 	if op == OExtract || op == OZext || op == OSext {
-		fmt.Fprintf(&sb, "|%d:%d", hi, lo)
+		b = append(b, '|')
+		b = strconv.AppendInt(b, int64(hi), 36)
+		b = append(b, ':')
+		b = strconv.AppendInt(b, int64(lo), 36)
 	}
-	key := sb.String()
 	tb.mu.Lock()
 	defer tb.mu.Unlock()
-	if t, ok := tb.byKey[key]; ok {
+	if t, ok := tb.byKey[string(b)]; ok {
 		return t
 	}
 	t := &Term{ID: len(tb.terms), Op: op, S: s, Args: args, Val: val, Name: name, Hi: hi, Lo: lo}
 	tb.terms = append(tb.terms, t)
-	tb.byKey[key] = t
+	tb.byKey[string(b)] = t
 	return t
 }
 
@@ -195,10 +207,30 @@ func (tb *Table) True() *Term  { return tb.Bool(true) }
 func (tb *Table) False() *Term { return tb.Bool(false) }
 
 func (tb *Table) ConstBig(v *big.Int, w int) *Term {
+	if w <= 64 && v.Sign() >= 0 && v.IsUint64() {
+		return tb.Const(v.Uint64(), w)
+	}
 	return tb.intern(OConst, BV(w), nil, norm(v, w), "", 0, 0)
 }
 
 func (tb *Table) Const(v uint64, w int) *Term {
+	if w <= 64 {
+		if w < 64 {
+			v &= (1 << uint(w)) - 1
+		}
+		k := [2]uint64{v, uint64(w)}
+		tb.mu.Lock()
+		t, ok := tb.smallConst[k]
+		tb.mu.Unlock()
+		if ok {
+			return t
+		}
+		t = tb.intern(OConst, BV(w), nil, new(big.Int).SetUint64(v), "", 0, 0)
+		tb.mu.Lock()
+		tb.smallConst[k] = t
+		tb.mu.Unlock()
+		return t
+	}
 	return tb.ConstBig(new(big.Int).SetUint64(v), w)
 }
 
@@ -518,6 +550,21 @@ nofold:
 		}
 		if a == b {
 			return a
+		}
+		// little-endian assembly: zext(x) | (zext(y) << width(x))  ->  zext(concat(y, x))
+		for pass := 0; pass < 2; pass++ {
+			lo, hi := a, b
+			if pass == 1 {
+				lo, hi = b, a
+			}
+			if lo.Op == OZext && hi.Op == OShl && hi.Args[1].IsConst() && hi.Args[0].Op == OZext {
+				x, y := lo.Args[0], hi.Args[0].Args[0]
+				if hi.Args[1].Val.IsInt64() && int(hi.Args[1].Val.Int64()) == x.S.W && x.S.W+y.S.W <= w {
+					return tb.Zext(tb.Concat(y, x), w)
+				}
+			}
+			// x (full width source) variant: x | (zext(y) << k) where x = zext(x') handled above;
+			// also the top byte: zext(c) | (zext(y) << k) with k+width(y) == w
 		}
 	case OBXor:
 		if a.IsConst() {
